@@ -106,9 +106,14 @@ func newEventFromUntrustedJSONV3(eventJSON []byte, roomVersion IRoomVersion) (PD
 
 	// EventID() and Redact() cannot report an error: they panic on events that cannot be
 	// redacted (content that is not an object, or that holds a number too large to decode).
-	if _, err = roomVersion.RedactEventJSON(eventJSON); err != nil {
+	// Working out the event ID redacts the event, and doing it here rather than on the
+	// first call of EventID() keeps the accessors free of writes, so that a parsed
+	// event can be read from several goroutines.
+	ref, err := referenceOfEventForVersion(eventJSON, roomVersion)
+	if err != nil {
 		return nil, fmt.Errorf("gomatrixserverlib: event cannot be redacted: %w", err)
 	}
+	res.EventIDRaw = ref.EventID
 
 	err = CheckFields(res)
 
@@ -131,6 +136,9 @@ func newEventFromTrustedJSONV3(eventJSON []byte, redacted bool, roomVersion IRoo
 	res.roomVersion = roomVersion.Version()
 	res.redacted = redacted
 	res.eventJSON = eventJSON
+	if err := res.setEventID(roomVersion); err != nil {
+		return nil, err
+	}
 	return &res, nil
 }
 
